@@ -90,6 +90,7 @@ class Fn:
         self.nub = 0
         self.ub = 'ub'
         self.notes = []
+        self.rettype = None
 
     # ---------------------------------------------------------------- monad
     def fail(self):
@@ -156,7 +157,8 @@ class Fn:
                     and isinstance(e.right.op, ast.Invert):
                 a, ta = self.expr(e.left)
                 b, tb = self.expr(e.right.operand)
-                if ta == 'set' and tb == 'set':
+                if ta == 'set' and (tb == 'set' or
+                                    (isinstance(tb, tuple) and tb[0] == 'single')):
                     return f'(diff {a} {b})', 'set'
                 if ta == 'set' and isinstance(tb, tuple) and tb[0] == 'under':
                     return (f'(filter (fun p_ => negb (box_leb p_ {tb[1]})) {a})',
@@ -174,7 +176,7 @@ class Fn:
         if isinstance(e, ast.Call):
             return self.call(e)
         if isinstance(e, ast.DictComp) and \
-                s == '{bab.p_to_q[k]: v for (k, v) in d.items()}':
+                s == '{bab.p_to_q[k]: v for k, v in d.items()}':
             d, td = self.var('d')
             return d, ('elemq', d)
         raise Refuse(f'{self.name}: expression {s}')
@@ -283,6 +285,8 @@ class Fn:
             return self.stmts(rest)
         if (self.name, src) in SKIP_STMT_SRC:
             return self.stmts(rest)
+        if self.name == 'minimize' and src == 'lat.setup_lattice(prm, fol)':
+            return self.stmts(rest)     # declares the lattice relations
         if isinstance(st, ast.Assign) and len(st.targets) == 1 and \
                 isinstance(st.targets[0], ast.Name) and \
                 SKIP_ASSIGN.get(st.targets[0].id) == _src(st.value):
@@ -319,14 +323,33 @@ class Fn:
                    and _src(s.value.func).startswith('log.') for s in body)
 
     def pure_warning_test(self, t):
-        s = _src(t)
-        return s in ('not _care_implies_type_hints(f, care, fol)',
-                     'not _f_implies_care(f, care, fol)',
-                     '(f | ~care) == fol.true')
+        """A test that only inspects the inputs (no effect on the result when
+        its branch only logs)."""
+        allowed = {'f', 'care', 'fol', '_care_implies_type_hints',
+                   '_f_implies_care', 'cov'}
+        for n in ast.walk(t):
+            if isinstance(n, ast.Name) and n.id not in allowed:
+                return False
+            if isinstance(n, (ast.NamedExpr, ast.Lambda, ast.Await, ast.Yield)):
+                return False
+        return True
+
+    def coerce(self, e, want):
+        """Term of the expression at the declared return type."""
+        if isinstance(want, tuple) and want[0] == 'tuple':
+            if not (isinstance(e, ast.Tuple) and len(e.elts) == len(want) - 1):
+                raise Refuse(f'{self.name}: return {_src(e)} : expected {want}')
+            return '(' + ', '.join(self.coerce(x, w) for x, w
+                                   in zip(e.elts, want[1:])) + ')'
+        v, tv = self.expr(e)
+        if tv == want:
+            return v
+        if want == 'oset' and tv == 'set':
+            return f'Some {v}'
+        raise Refuse(f'{self.name}: return {_src(e)} : {tv}, expected {want}')
 
     def do_return(self, value):
-        v, tv = self.expr(value)
-        return self.ret(v)
+        return self.ret(self.coerce(value, self.rettype))
 
     def snapshot(self):
         return dict(self.env), self.ub, self.nub
@@ -345,6 +368,18 @@ class Fn:
                 raise Refuse(f'{self.name}: `{src}` on {ta}')
             snap = self.snapshot()
             then = self.do_assign(st.body[0].targets[0], st.body[0].value, rest)
+            self.restore(snap)
+            nm = self.fresh_name(v)
+            self.env[v] = (nm, 'set')
+            els = self.stmts(rest)
+            return (f'match {a} with\n| None =>\n{then}\n| Some {nm} =>\n{els}\nend')
+        # `if v is None: ...; return ...` : afterwards v is a set
+        if src.endswith(' is None') and not st.orelse and isinstance(st.test.left, ast.Name) \
+                and self.ends_with_return(st.body) and self.var(st.test.left.id)[1] == 'oset':
+            v = st.test.left.id
+            a, _ = self.var(v)
+            snap = self.snapshot()
+            then = self.stmts(st.body)
             self.restore(snap)
             nm = self.fresh_name(v)
             self.env[v] = (nm, 'set')
@@ -536,6 +571,7 @@ def translate_cover(path):
         raise Refuse('_branch: parameters')
     fn = Fn('_branch', node, 'option', {'_traverse': _call_traverse('rec')})
     fn.env = {'x': ('x', 'set'), 'y': ('y', 'set'), 'path_cost': ('path_cost', 'nat')}
+    fn.rettype = 'oset'
     body = fn.stmts(node.body)
     notes += fn.notes
     out.append(
@@ -550,6 +586,7 @@ def translate_cover(path):
         raise Refuse('_traverse: parameters')
     fn = Fn('_traverse', node, 'option', {'_branch': _call_branch})
     fn.env = {'x': ('x', 'set'), 'y': ('y', 'set'), 'path_cost': ('path_cost', 'nat')}
+    fn.rettype = ('tuple', 'oset', 'nat')
     body = fn.stmts(node.body)
     notes += fn.notes
     out.append(
@@ -574,6 +611,7 @@ def translate_cover(path):
         return fn.bind_m(call, f'({pat}, {ub})', fn.stmts(rest))
     fn = Fn('minimize', node, 'option', {'_traverse': call_top})
     fn.env = {}
+    fn.rettype = 'set'
     body = fn.stmts(node.body)
     notes += fn.notes
     out.append(
